@@ -256,7 +256,7 @@ func adjacent(uid, msg []byte) (u, m []byte) {
 	if len(uid) == 0 {
 		return uid, msg
 	}
-	rec := make([]byte, len(uid)+len(msg)+8)
+	rec := make([]byte, len(uid)+len(msg)+256) // ample dirty slack: any append the callee does lands in place
 	copy(rec, uid)
 	copy(rec[len(uid):], msg)
 	for i := len(uid) + len(msg); i < len(rec); i++ {
